@@ -103,6 +103,7 @@ def commands(files, has_dep5):
     cmds = [["lint"], ["lint", "--json"], ["lint", "--lines"], ["lint-file", "src/a.py", target], ["spdx"], ["spdx", "-o", "bom.spdx"],
             ["annotate", "--copyright", "V", "--license", "MIT", "--year", "2020", *(["--template", "odd"] if ".reuse/templates/odd.jinja2" in files else []), target],
             ["download", "LicenseRef-verif"],
+            ["annotate", "--copyright", "V", "--license", "MIT", "--skip-existing", target],
             ["annotate", "--copyright", "V", "--license", "()", target], ["annotate", "--copyright", "V", "--license", "(AND 1", target]]
     if has_dep5:
         cmds.append(["convert-dep5"])
